@@ -5,3 +5,34 @@ From CV Require Import Lock.LockCheck Lock.LockCheckProofs Gen.LockProgs.
 
 Lemma generated_ok : check_prog generated_prog = true.
 Proof. vm_compute. reflexivity. Qed.
+
+(* ---- Close, any number of times ----------------------------------------------------------- *)
+Fixpoint index_of (name : string) (P : prog) (i : nat) : option nat :=
+  match P with
+  | nil => None
+  | cons fd r => if String.eqb (f_name fd) name then Some i else index_of name r (S i)
+  end.
+
+Definition close_id : nat :=
+  match index_of "Conn.Close"%string generated_prog 0 with Some i => i | None => 0 end.
+
+(* the entry found really is Conn.Close, an api function with a body, callable with nothing held *)
+Lemma close_id_ok :
+  index_of "Conn.Close"%string generated_prog 0 = Some close_id /\
+  api_callable generated_prog close_id = true.
+Proof. split; vm_compute; reflexivity. Qed.
+
+Lemma close_idempotent_lock : forall n r,
+  exec generated_prog (calls (repeat close_id n)) empty_state r ->
+  r = RNorm empty_state \/ r = RAbort.
+Proof.
+  intros n r Hex.
+  refine (api_sequence_sound generated_prog generated_ok (repeat close_id n) r _ Hex).
+  apply forallb_forall. intros x Hx. apply repeat_spec in Hx. subst x. exact (proj2 close_id_ok).
+Qed.
+
+Lemma api_sequences_lock : forall l r,
+  forallb (api_callable generated_prog) l = true ->
+  exec generated_prog (calls l) empty_state r ->
+  r = RNorm empty_state \/ r = RAbort.
+Proof. exact (api_sequence_sound generated_prog generated_ok). Qed.
